@@ -278,7 +278,7 @@ fn wrap_logs(v: &Value) -> Value {
 }
 
 fn check_counts(case: &Value, obs: &mut Obs) -> Result<(), String> {
-    let rule = wrap_logs(rule_of(case));
+    let rule = if case["twins"].as_bool().unwrap_or(false) { rule_of(case).clone() } else { wrap_logs(rule_of(case)) };
     let data = data_of(case);
     let d = diff(&rule, data, obs, TraceMode::Multiset)?;
     if d.model.is_ok() && d.ctx.trace.len() >= 2 {
@@ -289,8 +289,29 @@ fn check_counts(case: &Value, obs: &mut Obs) -> Result<(), String> {
     Ok(())
 }
 
+/// the same operand expression written twice (or three times) as siblings: each occurrence is a use and is evaluated
+fn gen_twins() -> BoxedStrategy<Value> {
+    let inner = prop_oneof![
+        Just(json!({"if": [true, {"log": "m"}]})),
+        Just(json!({"or": [0, {"log": {"var": "k"}}]})),
+        Just(json!({"and": [1, {"log": [[1, 2]]}]})),
+        Just(json!({"map": [[1, 2], {"log": {"var": ""}}]})),
+        Just(json!({"reduce": [[1], {"log": "r"}, 0]})),
+        Just(json!({"some": [[1], {"log": "s"}]})),
+        Just(json!({"log": "direct"})),
+        Just(json!({"cat": [{"if": [{"var": "k"}, {"log": "deep"}]}]})),
+        Just(json!({"var": ["nope", {"or": [{"log": "d"}]}]})),
+    ];
+    (select(vec!["cat", "merge", "+", "==", "max", "in", "<", "missing", "var"]), inner, 2usize..=3, marked_data())
+        .prop_map(|(op, x, n, data)| {
+            let args: Vec<Value> = std::iter::repeat(x).take(n).collect();
+            json!({"rule": opn(op, &args), "data": data, "twins": true})
+        })
+        .boxed()
+}
+
 fn gen_counts() -> BoxedStrategy<Value> {
-    prop_oneof![1 => gen_routes(), 1 => gen_routes_general()].boxed()
+    prop_oneof![2 => gen_routes(), 2 => gen_routes_general(), 1 => gen_twins()].boxed()
 }
 
 pub fn property() -> Property {
